@@ -83,7 +83,7 @@ async def prepare_function_test(
     else:
         try:
             inputs = celpy.json_to_cel(raw_inputs)
-        except ValueError as err:
+        except (ValueError, RecursionError) as err:
             return PermFail(
                 message=f"FunctionTest '{cache_key}' `spec.inputs` contains a value CEL can not represent ({err}).",
                 location=location,
@@ -154,7 +154,7 @@ def _prepare_test_case(
     else:
         try:
             overrides = celpy.json_to_cel(raw_overrides)
-        except ValueError as err:
+        except (ValueError, RecursionError) as err:
             return PermFail(
                 message=f"`{location}.inputOverrides` contains a value CEL can not represent ({err}).",
                 location=f"{location}.inputOverrides",
@@ -245,7 +245,7 @@ def _prepare_test_case(
         expected_outcome_spec["assert"] = True
         try:
             expected_outcome = celpy.json_to_cel([expected_outcome_spec])
-        except ValueError as err:
+        except (ValueError, RecursionError) as err:
             return PermFail(
                 message=f"`{location}.expectOutcome` contains a value CEL can not represent ({err}).",
                 location=f"{location}.expectOutcome",
